@@ -952,6 +952,23 @@ pub fn speed_limit_run(ctx: &mut Ctx, rng: &mut Rng, interval: Option<usize>, ex
         }
         sim.set_save_interval(interval);
         ctx.count("obs.speed_limited_runs_with_interval_changed_through_the_setter");
+        if rng.chance(0.5) {
+            // a nested level is changed behind the top level's back (the consist's own public setter, as when a
+            // consist configured elsewhere is put into the train), then the top-level setter is called again with
+            // the value the top level already holds: it must reach every nested object all the same. Half of these
+            // go through the batch-level setter of SpeedLimitTrainSimVec.
+            let other = *rng.pick(&[None, Some(1usize), Some(2), Some(3), Some(5)]);
+            sim.loco_con.set_save_interval(other);
+            if rng.chance(0.5) {
+                let mut v = SpeedLimitTrainSimVec(vec![sim]);
+                v.set_save_interval(interval);
+                sim = v.0.pop().unwrap();
+                ctx.count("obs.interval_set_again_through_the_batch_setter_after_a_nested_change");
+            } else {
+                sim.set_save_interval(interval);
+                ctx.count("obs.interval_set_again_through_the_train_setter_after_a_nested_change");
+            }
+        }
     }
     let train_res_json = serde_json::to_value(&sim.train_res).unwrap_or(json!(null));
     let what: &'static str = match ext {
